@@ -26,6 +26,16 @@ ASSUMPTIONS = ["reference model + AD trusted after self-test", "cases whose refe
 def strategy_(g):
     case = GG.gen(g, n_pose=(2, 8), n_lm=(0, 3), n_loops=(0, 3), conds=(1.0, 1e2, 1e3), noise=(0.05, 0.05), pert=(0.3, 0.3))
     case["n_steps"] = g.choice([1, 1, 2, 3])
+    case["alias"] = []
+    ff0 = case["fix_first"]
+    free0 = [i for i, v in enumerate(case["verts"]) if not (v["fixed"] or (ff0 and i == 0))]
+    if len(free0) >= 2 and g.choice([False, False, False, True]):
+        # several free vertices initialised from ONE pose object (same kind): each must still receive its own update
+        j = g.rnd.choice(free0)
+        same = [i for i in free0 if i != j and case["verts"][i]["p"]["k"] == case["verts"][j]["p"]["k"]]
+        for i in g.rnd.sample(same, min(len(same), g.rnd.randint(1, 2))):
+            case["verts"][i]["p"] = {"k": case["verts"][j]["p"]["k"], "v": list(case["verts"][j]["p"]["v"])}
+            case["alias"].append([i, j])
     # free vertices may start far away in translation (exact Gauss-Newton steps of 1e2..1e5 units)
     P = g.choice([0.0, 0.0, 0.0, 1e2, 1e5])
     case["meta"]["init_displacement"] = P
@@ -58,6 +68,10 @@ def check(case, ctx):
     S_ = GG.S_of(case)
 
     g = GG.build(case)
+    for i, j in case.get("alias", []):
+        g._vertices[i].pose = g._vertices[j].pose
+    if case.get("alias"):
+        ctx.event("free-vertices-share-one-pose-object")
     # consecutive iterations on the same live graph: each one must be the Gauss-Newton step of the state it starts from
     # (anything remembered from an earlier evaluation - cached blocks, buffers - shows up from the second one on)
     for it in range(case.get("n_steps", 1)):
